@@ -72,6 +72,7 @@ void (*g_fail_hook)(const char *clause, const char *msg) = nullptr;  // libFuzze
 
 void Ctx::note(const char *fmt, ...) {
   char b[1024]; va_list ap; va_start(ap, fmt); vsnprintf(b, sizeof b, fmt, ap); va_end(ap);
+  if (echo) { printf("  %s\n", b); fflush(stdout); }
   log.push_back(b);
 }
 void Ctx::fail(const char *clause, const char *fmt, ...) {
@@ -83,7 +84,7 @@ void Ctx::fail(const char *clause, const char *fmt, ...) {
     g_sh->state = 1;
   }
   if (logging) {
-    for (auto &l : log) printf("  %s\n", l.c_str());
+    if (!echo) for (auto &l : log) printf("  %s\n", l.c_str());
     printf("FAIL clause=%s: %s\n", clause, b);
     fflush(stdout);
   }
@@ -340,8 +341,9 @@ static Verdict run_child(const Mode &m, int mi, const std::vector<uint8_t> &tape
     alarm(120);
     std::map<std::string, uint64_t> classes; Ctx c; c.classes = &classes; c.build = VF_BUILD; g_ctx = &c;
     sh->mode = mi; sh->tape_len = (uint32_t)std::min<size_t>(tape.size(), sizeof sh->tape);
+    c.echo = logging;
     run_one(c, m, tape.data(), tape.size(), logging, false);
-    if (logging) { for (auto &l : c.log) printf("  %s\n", l.c_str()); printf("PASS (nontrivial=%d ops=%llu)\n", c.nontrivial, (unsigned long long)c.ops); fflush(stdout); }
+    if (logging) { printf("PASS (nontrivial=%d ops=%llu)\n", c.nontrivial, (unsigned long long)c.ops); fflush(stdout); }
     _exit(0);
   }
   int st = 0; waitpid(pid, &st, 0);
